@@ -1140,4 +1140,256 @@ theorem fan_monitor_accepts_runs {kind : Nat → Kind} {t : Topo} {ls : List FLa
   have := fsim_run (finv_init t) (finvK_init kind t) hsim h
   simp [fholdsOn, fmonitor, ffoldl_visible, this.ok]
 
+/-! ### stateless streamable servers: every pair is a temporary session per message (`stepE`) -/
+
+/-- In the model of temporary sessions a sending call returns only after the handler is done. -/
+def EInv (s : State) : Prop := ∀ i, i ∈ s.returned → s.phase i = .done
+
+theorem einv_stepE {s s' : State} {l : Label} (h : EInv s) (hs : stepE s l = some s') : EInv s' := by
+  intro i hi
+  cases l <;> simp only [stepE] at hs
+  case send k =>
+    split at hs <;> simp at hs
+    rename_i hu; subst hs
+    simp only [setPhase_phase, setPhase_returned] at hi ⊢
+    have := h i hi
+    split
+    · rename_i e; subst e; rw [hu] at this; cases this
+    · exact this
+  case start k =>
+    split at hs <;> simp at hs
+    rename_i hu; subst hs
+    simp only [setPhase_phase, setPhase_returned] at hi ⊢
+    have := h i hi
+    split
+    · rename_i e; subst e; rw [hu] at this; cases this
+    · exact this
+  case cb k => split at hs <;> simp at hs; subst hs; exact h i hi
+  case fin k =>
+    split at hs <;> simp at hs
+    subst hs
+    simp only [setPhase_phase, setPhase_returned] at hi ⊢
+    split
+    · rfl
+    · exact h i hi
+  case ret k =>
+    split at hs
+    · simp at hs
+    · split at hs <;> simp at hs
+      rename_i hd; subst hs
+      simp only [List.mem_cons] at hi
+      rcases hi with rfl | hi
+      · exact hd
+      · exact h i hi
+  all_goals simp at hs
+
+theorem stepE_done_only_fin {s s' : State} {l : Label} (h : stepE s l = some s')
+    {i : Nat} (hd : s'.phase i = .done) : s.phase i = .done ∨ l = .fin i := by
+  cases l <;> simp only [stepE] at h
+  case send k =>
+    split at h <;> simp at h
+    subst h
+    simp only [setPhase_phase] at hd
+    split at hd
+    · cases hd
+    · left; exact hd
+  case start k =>
+    split at h <;> simp at h
+    subst h
+    simp only [setPhase_phase] at hd
+    split at hd
+    · cases hd
+    · left; exact hd
+  case cb k => split at h <;> simp at h; subst h; left; exact hd
+  case fin k =>
+    split at h <;> simp at h
+    subst h
+    simp only [setPhase_phase] at hd
+    split at hd
+    · rename_i e; subst e; right; rfl
+    · left; exact hd
+  case ret k =>
+    split at h
+    · simp at h
+    · split at h <;> simp at h; subst h; left; exact hd
+  all_goals simp at h
+
+structure FSimE (t : Topo) (S : FState) (m : FMon) : Prop where
+  einv : ∀ p, EInv (S.peers p)
+  ret : ∀ r, r ∈ m.returned → r.1 ∈ m.finished
+  failed : ∀ c, c ∈ S.failed → c ∈ m.failed
+  pred : ∀ x, x ∈ m.sentAfter → x.1 ∈ m.finished
+  fin : ∀ i, (S.peers (t.pair i)).phase i = .done → i ∈ m.finished
+  ok : m.bad = none
+
+theorem fsimE_step {kind : Nat → Kind} {t : Topo} {S S' : FState} {l : FLabel} {m : FMon}
+    (hF : FInv t S) (hsim : FSimE t S m) (hs : fstep stepE t S l = some S') :
+    FSimE t S' (m.stepL (t.cfg kind) l) := by
+  have heinv : ∀ p, EInv (S'.peers p) := by
+    intro p
+    rcases fstep_peers hs p with ⟨l0, _, _, hp⟩ | ⟨_, hp⟩
+    · exact einv_stepE (hsim.einv p) hp
+    · rw [hp]; exact hsim.einv p
+  have ffail : ∀ c, c ∈ S'.failed → c ∈ m.failed ∨ l = .ferr c := by
+    intro c hc
+    rcases fstep_failed_only hs hc with q | q
+    · left; exact hsim.failed c q
+    · right; exact q
+  have ffin : ∀ i, (S'.peers (t.pair i)).phase i = .done → i ∈ m.finished ∨ l = .msg (.fin i) := by
+    intro i hd
+    rcases fstep_peers hs (t.pair i) with ⟨l0, e, _, hp⟩ | ⟨_, hp⟩
+    · rcases stepE_done_only_fin hp hd with r | r
+      · left; exact hsim.fin i r
+      · right; rw [e, r]
+    · left; rw [hp] at hd; exact hsim.fin i hd
+  have nofail : (∀ c, l ≠ .ferr c) → ∀ c, c ∈ S'.failed → c ∈ m.failed := by
+    intro h2 c hc; rcases ffail c hc with q | q
+    · exact q
+    · exact absurd q (h2 c)
+  have nofin : (∀ i, l ≠ .msg (.fin i)) → ∀ i, (S'.peers (t.pair i)).phase i = .done → i ∈ m.finished := by
+    intro h1 i hd; rcases ffin i hd with q | q
+    · exact q
+    · exact absurd q (h1 i)
+  have owedFin : ∀ j b x, x ∈ m.owed (t.cfg kind) j b → x.1 ∈ m.finished := by
+    intro j b x hx
+    obtain ⟨r, hr, rfl, _, _⟩ := owed_mem hx
+    exact hsim.ret r hr
+  cases l with
+  | msg l0 =>
+    have hp' : stepE (S.peers (t.pair l0.id)) l0 = some (S'.peers (t.pair l0.id)) := by
+      rcases fstep_peers hs (t.pair l0.id) with ⟨l1, e, _, h1⟩ | ⟨h1, _⟩
+      · cases e; exact h1
+      · exact absurd rfl (h1 l0 rfl)
+    cases l0 with
+    | send j =>
+      rw [stepL_send]
+      refine ⟨heinv, hsim.ret, nofail (by intro c e; cases e), ?_, nofin (by intro i e; cases e), hsim.ok⟩
+      intro x hx
+      simp only [List.mem_append] at hx
+      rcases hx with hx | hx
+      · exact hsim.pred x hx
+      · exact owedFin _ _ x hx
+    | bsend ps j => simp [stepE] at hp'
+    | write i => simp [stepE] at hp'
+    | disp i => simp [stepE] at hp'
+    | rel i => simp [stepE] at hp'
+    | cb i =>
+      rw [stepL_cb]
+      exact ⟨heinv, hsim.ret, nofail (by intro c e; cases e), hsim.pred, nofin (by intro i e; cases e), hsim.ok⟩
+    | ret i =>
+      rw [stepL_ret]
+      refine ⟨heinv, ?_, nofail (by intro c e; cases e), hsim.pred, nofin (by intro i e; cases e), hsim.ok⟩
+      intro r hr
+      simp only [List.mem_cons] at hr
+      rcases hr with rfl | hr
+      · have hd : (S.peers (t.pair i)).phase i = .done := by
+          have hp2 : stepE (S.peers (t.pair i)) (.ret i) = some (S'.peers (t.pair i)) := hp'
+          simp only [stepE] at hp2
+          split at hp2
+          · simp at hp2
+          · split at hp2 <;> simp at hp2
+            assumption
+        exact hsim.fin i hd
+      · exact hsim.ret r hr
+    | fin i =>
+      rw [stepL_fin]
+      refine ⟨heinv, ?_, nofail (by intro c e; cases e), ?_, ?_, hsim.ok⟩
+      · intro r hr; exact List.mem_cons_of_mem _ (hsim.ret r hr)
+      · intro x hx; exact List.mem_cons_of_mem _ (hsim.pred x hx)
+      · intro k hd
+        simp only [List.mem_cons]
+        rcases ffin k hd with q | q
+        · right; exact q
+        · left; cases q; rfl
+    | start j =>
+      rw [stepL_start]
+      have hfind : (m.sentAfter.find? fun p => p.2.1 == j && !m.finished.contains p.1) = none := by
+        rw [List.find?_eq_none]
+        intro x hx
+        have := hsim.pred x hx
+        simp [this]
+      have : FMon.step (t.cfg kind) m (.msg (.beg j)) = m := by
+        simp only [FMon.step, hsim.ok, hfind]
+      rw [this]
+      exact ⟨heinv, hsim.ret, nofail (by intro c e; cases e), hsim.pred, nofin (by intro i e; cases e), hsim.ok⟩
+  | fcall g =>
+    rw [stepL_fcall]
+    refine ⟨heinv, hsim.ret, nofail (by intro c e; cases e), ?_, nofin (by intro i e; cases e), hsim.ok⟩
+    intro x hx
+    simp only [List.mem_append, List.mem_flatMap, List.mem_filter] at hx
+    rcases hx with hx | ⟨c, _, hx⟩
+    · exact hsim.pred x hx
+    · exact owedFin _ _ x hx
+  | ferr c =>
+    rw [stepL_ferr]
+    refine ⟨heinv, hsim.ret, ?_, hsim.pred, nofin (by intro i e; cases e), hsim.ok⟩
+    intro c' hc'
+    simp only [List.mem_cons]
+    rcases ffail c' hc' with q | q
+    · right; exact q
+    · left; cases q; rfl
+  | fret g =>
+    rw [stepL_fret]
+    refine ⟨heinv, ?_, nofail (by intro c e; cases e), hsim.pred, nofin (by intro i e; cases e), hsim.ok⟩
+    intro r hr
+    simp only [List.mem_append, List.mem_map, List.mem_filter] at hr
+    rcases hr with ⟨c, ⟨hc, hcond⟩, rfl⟩ | hr
+    · simp only [Bool.and_eq_true, beq_iff_eq, Bool.not_eq_true', Topo.cfg] at hcond
+      rcases finv_fret_copy hF hs hc hcond.1 with q | q
+      · exact hsim.fin c (hsim.einv _ c q)
+      · have := hsim.failed c q
+        have h2 := hcond.2
+        simp at h2
+        exact absurd this h2
+    · exact hsim.ret r hr
+
+theorem fsimE_run {kind : Nat → Kind} {t : Topo} {S S' : FState} {ls : List FLabel} {m : FMon}
+    (hF : FInv t S) (hsim : FSimE t S m) (hs : frun stepE t S ls = some S') :
+    FSimE t S' (ls.foldl (FMon.stepL (t.cfg kind)) m) := by
+  induction ls generalizing S m with
+  | nil => simp [frun] at hs; subst hs; exact hsim
+  | cons l ls ih =>
+    obtain ⟨M, h1, h2⟩ := frun_cons_some hs
+    exact ih (finv_step pairOK_stepE hF h1) (fsimE_step hF hsim h1) h2
+
+/-- One client, several STATELESS streamable servers (every pair a temporary session per POST, answered only
+after the message was handled): for ALL addressings, whatever the kinds, and ALL label lists that are runs of
+the family over `stepE`, the property monitor holds. -/
+theorem fan_monitor_accepts_ephemeral_runs (kind : Nat → Kind) {t : Topo} {ls : List FLabel} {S : FState}
+    (h : frun stepE t finit ls = some S) : fholdsOn (t.cfg kind) (fvisible ls) = true := by
+  have hsim : FSimE t finit ({} : FMon) :=
+    ⟨by intro p i hi; simp [finit, init] at hi, by simp, by simp [finit], by simp, by intro i; simp [finit, init], rfl⟩
+  have := fsimE_run (kind := kind) (finv_init t) hsim h
+  simp [fholdsOn, fmonitor, ffoldl_visible, this.ok]
+
+/-! ### the monitor is not vacuous across a fan-out -/
+
+/-- The log of the seeded change C03-m10 (the notifying method returns before its per-session sends are
+over; the send to peer 1 is slow; the same goroutine then sends a tool call to peer 1, which is handled
+first): rejected by the monitor, and not a run of the fan-out discipline. -/
+theorem detached_fanout_breaks_order :
+    let cfg : Cfg := { kind := fun i => if i ≤ 2 then .note else .call, pair := fun i => if i = 1 then 0 else 1,
+                       copies := fun _ => [1, 2], grp := fun i => if i ≤ 2 then some 0 else none }
+    let t : Topo := { pair := cfg.pair, grp := cfg.grp, copies := cfg.copies }
+    let log : List FEv := [.fcall 0, .fret 0, .msg (.snd 3), .msg (.snd 1), .msg (.snd 2), .msg (.ret 1), .msg (.beg 1), .msg (.fin 1),
+                           .msg (.beg 3), .msg (.fin 3), .msg (.ret 3), .msg (.ret 2), .msg (.beg 2), .msg (.fin 2)]
+    orderClause cfg log = some (.fanout 0 2 3) ∧ fanDiscipline t log = false := by
+  refine ⟨?_, ?_⟩ <;> decide
+
+/-- The same messages with the fan-out sequential: accepted. -/
+example :
+    let cfg : Cfg := { kind := fun i => if i ≤ 2 then .note else .call, pair := fun i => if i = 1 then 0 else 1,
+                       copies := fun _ => [1, 2], grp := fun i => if i ≤ 2 then some 0 else none }
+    orderClause cfg [.fcall 0, .msg (.snd 1), .msg (.ret 1), .msg (.snd 2), .msg (.beg 1), .msg (.fin 1), .msg (.ret 2), .fret 0,
+                     .msg (.snd 3), .msg (.beg 2), .msg (.fin 2), .msg (.beg 3), .msg (.fin 3), .msg (.ret 3)] = none := by
+  decide
+
+/-- A later fan-out is judged by the begin of ITS notifying method: the copy for peer 1 of the second
+AddRoots must not be handled before the copy for peer 1 of the first. -/
+example :
+    let cfg : Cfg := { kind := fun _ => .note, pair := fun i => i % 2,
+                       copies := fun g => if g = 0 then [0, 1] else [2, 3], grp := fun i => if i ≤ 1 then some 0 else some 1 }
+    orderClause cfg [.fcall 0, .fret 0, .fcall 1, .fret 1, .msg (.snd 3), .msg (.ret 3), .msg (.beg 3)] = some (.fanout 0 1 3) := by
+  decide
+
 end Order
